@@ -83,8 +83,11 @@ def check(case):
         cm.note(res, f"skipped:loader-rejects:{cm.exc_name(e)}")
         return res
     stiff = [ref.state_names[0]]
-    req = [k for k in (c.get("missing") or {}) if k in ref.assigns or k in ref.states or k in ref.params]
-    req = {k: i for i, k in enumerate(req)} or pick_missing(ref)
+    given = {k: v for k, v in (c.get("missing") or {}).items() if k in ref.assigns or k in ref.states or k in ref.params}
+    if given and sorted(given.values()) == list(range(len(given))):
+        req = {k: int(v) for k, v in given.items()}  # the requested slots as stored
+    else:  # (a shrunk model lost some of the names: renumber in the stored slot order)
+        req = {k: i for i, k in enumerate(sorted(given, key=lambda k: given[k]))} or pick_missing(ref)
     schemes = SCHEMES
     try:
         npm = be.build(ode, "numpy", schemes, stiff_states=stiff, missing_values=req)
